@@ -49,13 +49,13 @@ T = {
          "Trusted: ring AES-GCM; harness providers are faithful KMS stand-ins."),
  "C15": ("real server process per configuration observed from outside: /proc thread names, probe replies, TCP health replies, stderr, liveness (runtime monitor)",
          "Every explored start of the real server binary (example.cfg as shipped; a covering sample in quick / the full documented grid in thorough; file and ENV sources) became ready, showed all worker-N threads, answered probes from every worker (distinct per-worker delegated keys) with verifying replies, answered sequential and burst health-check connections with HTTP 200 while UDP service continued (also right after a burst queued while the process was stopped, with a junk-only first batch and reset connections), also when pinned to fewer CPUs than workers, printed no panic, and stayed alive for the 3 s observation window. Exploration over configurations; 'stays alive' is decided over the window only.",
-         "Trusted: per-worker identity = distinct DELE.PUBK among classic replies; readiness = first verifying reply within 10 s; port collisions with foreign processes are inconclusive."),
+         "Trusted: per-worker identity = distinct DELE.PUBK among classic replies; readiness = first verifying reply within 10 s; port collisions with foreign processes are inconclusive; burst requests count as unanswered only once the server has settled (all threads blocked, receive queue unchanged)."),
  "C16": ("probe child process calling the real make_config+is_valid_config, confirmed by starting the real server (runtime monitor against the documented option table)",
          "For every documented key x boundary value x source: in-range values were reported unchanged by the getters through both sources; out-of-range values, missing required keys, unknown keys, empty values and malformed seeds never led to a serving server; spot checks on the running binary (worker threads, first-batch size, failing share at fault_percentage 1/25/49/50, written health port already taken) agreed with the written values. Bounded grid, exhaustive over it; thorough adds random in-range combinations.",
          "Trusted: the option table transcribed from README.md / config/mod.rs docs; a start that dies is a refusal."),
  "C18": ("real multi-worker server under concurrent closed-loop reference clients; offline exactly-once check of the client-side history; TSan build in thorough (runtime monitor + race detector)",
          "In every explored round each request got exactly one reply verifying for that request under the single long-term key, no late second reply, no worker died, no panic, health-check clients polling during the load were answered, open-loop bursts (server stopped while they queue, optionally behind a junk-only batch) were answered completely; across rounds replies came from up to 16 distinct workers and thousands of distinct batch compositions. Schedules and SO_REUSEPORT placement are sampled and perturbed (client counts, CPU pinning, think times), not enumerated.",
-         "Trusted: 5 s reply bound (a missing reply with a moved kernel drop counter is inconclusive); reference verifier."),
+         "Trusted: a request is lost iff the server has settled without answering it (all threads in state S and the UDP receive queue of its port unchanged over two 150 ms windows, read from /proc); replies later than 5 s are inconclusive, as is a moved kernel drop counter; reference verifier."),
  "C19": ("real server + signals swept over delivery instants and load phases; exit status/time, stderr and pre-exit replies observed (fault enumeration over signal instants; TSan build in thorough)",
          "For every explored (signal, workers, client_stats, phase, delay) - phases idle, closed-loop, flood of four compositions, half a minute idle, descriptor limit reached with health connections pending, 2.4 M-address per-client table persisted - the process exited with status 0 within 10 s (observed maxima in evidence), printed no panic, and every reply received before exit verified. Instants are swept 0-300 ms in random microsecond steps; 3-10 s exits are recorded as slow (inconclusive).",
          "Trusted: 10 s bound as the reading of 'a few seconds'; signals delivered with kill(2) to the process."),
